@@ -486,6 +486,15 @@ example : ascii "!type" ∉ splitDot (ascii "sub.w.b") := by decide
 example : decProp faultCfg mProps mProps[0] (.str (ascii "x") []) { m := [], seen := [] } =
     .ok { m := [(1, .str (ascii "x"))], seen := [ascii "name"] } := by rfl
 
+/-- hypotheses of the object / array exactness theorems are satisfiable -/
+example : decObjMembers faultCfg mProps
+    (.cons (ascii "name") [] (.str (ascii "x") []) (.nil .closed)) { m := [], seen := [] } =
+    .ok ({ m := [(1, .str (ascii "x"))], seen := [ascii "name"] }, .closed) := by rfl
+example : decElems faultCfg (.scalar .int32) (.cons (.num (ascii "1")) (.nil .closed)) [] =
+    .ok ([.int 1], .closed) := by rfl
+example : mProps[0].path.getLast? = some 1 ∧ groupBusy mProps mProps[0] [] = false ∧
+    ¬ mProps[0].path <+: [5] ∧ ¬ [5] <+: mProps[0].path := by decide
+
 /-- `PathsApart` holds for the example object -/
 example : PathsApart mProps := by
   refine ⟨by decide, ?_⟩
